@@ -158,6 +158,10 @@ pub enum Fault {
     EofAfter(u64),
     /// every read fails once the client has read `k` bytes
     ReadErrAfter(u64),
+    /// ONE read fails with `ErrorKind::Interrupted` once the client has read `k` bytes; the stream is intact and
+    /// continues afterwards (a transport that surfaces EINTR). Used only in sessions without callers (C04): what a
+    /// client makes of a transient error is its own business, but it must not skip part of a reply and go on.
+    ReadInterruptedOnceAfter(u64),
     /// splice bytes into the server's output at stream offset `k`
     GarbageAt(u64, Vec<u8>),
     /// malformed bytes WITHOUT a line end in place of the rest of the output at that offset, after which the server
@@ -997,6 +1001,11 @@ impl AsyncRead for SimIo {
                 }
                 return Poll::Ready(Ok(()));
             }
+            Fault::ReadInterruptedOnceAfter(k) if g.s2c_delivered >= k && !g.fault_fired => {
+                g.fault_fired = true;
+                g.push(EvKind::Fault(format!("one read fails with Interrupted after {} bytes", k)));
+                return Poll::Ready(Err(io::Error::new(io::ErrorKind::Interrupted, "injected transient read error")));
+            }
             _ => {}
         }
         let pp = g.cfg.pending_p;
@@ -1007,6 +1016,9 @@ impl AsyncRead for SimIo {
         let mut limit = buf.remaining().min(g.cfg.read_cap).min(g.avail.len());
         match g.cfg.fault {
             Fault::EofAfter(k) | Fault::ReadErrAfter(k) => {
+                limit = limit.min((k - g.s2c_delivered) as usize);
+            }
+            Fault::ReadInterruptedOnceAfter(k) if !g.fault_fired => {
                 limit = limit.min((k - g.s2c_delivered) as usize);
             }
             _ => {}
